@@ -551,3 +551,32 @@ class JwtBearerGrant(_JWTBearerGrant):
 def jwt_bearer_assertion(client_id, sub="1", aud="https://as.example/ep"):
     return _JWTBearerGrant.sign(("key-of-" + client_id).encode(), issuer=client_id, audience=aud, subject=sub,
                                 issued_at=CLOCK(), expires_at=CLOCK() + 600, alg="HS256", header={"alg": "HS256"})
+
+
+# ---------------------------------------------------------------- RFC 7523 client assertion authentication
+from authlib.oauth2.rfc7523 import JWTBearerClientAssertion as _JBCA
+
+TOKEN_URL = "https://as.example/token"
+
+
+class JwtClientAuth(_JBCA):
+    def __init__(self, store, **kw):
+        super().__init__(TOKEN_URL, **kw)
+        self.store = store
+
+    def validate_jti(self, claims, jti):
+        self.store.cb("validate_jti")
+        key = (claims["sub"], jti)
+        if key in self.store.jtis:
+            return False
+        self.store.jtis.add(key)
+        return True
+
+    def resolve_client_public_key(self, client, headers):
+        # client_secret_jwt: the shared secret; private_key_jwt: the registered public key
+        pub = client.extra.get("public_key")
+        return pub if (pub and headers.get("alg", "").startswith(("RS", "ES", "PS"))) else client.client_secret
+
+
+def enable_jwt_client_auth(store, srv):
+    srv.register_client_auth_method(_JBCA.CLIENT_AUTH_METHOD, JwtClientAuth(store))
